@@ -9,8 +9,10 @@ package transaction
 //@ func (*TxProcessor).checkSignersWeight   pure
 //@   props C06
 //@   requires p != nil && p.am != nil && tx != nil
-//@   ensures result == nil && len(accSigners) == 0 ==> len(signers) >= 1 && signers[0] == sender
-//@   ensures result == nil && len(accSigners) > 0 ==> dsum(signers, len(signers), signersMap) >= 100
+//@   let reg = p.am.GetAccount(sender).GetSigners(); sg = res0(interfaceSigner.GetSigners(tx))
+//@   ensures result == nil && len(reg) == 0 ==> len(sg) >= 1 && sg[0] == sender
+//@   assert @call ToSignerMap#0: sameSlice(accSigners, reg)
+//@   ensures result == nil && len(reg) > 0 ==> dsum(sg, len(sg), signersMap) >= 100
 //@   invariant @loop 0: 0 <= $k && $k <= len(signers) && totalWeight == dsum(signers, $k, signersMap) && 0 <= totalWeight && totalWeight <= 255 * $k
 //@   invariant @loop 0: counted != nil && forall(j, 0, $k, has(counted, signers[j])) && forallKeys(a, counted, exists(j, 0, $k, signers[j] == a))
 
